@@ -9,7 +9,7 @@ Inductive Step (c : config) (s : state) : event -> state -> Prop :=
     (st s i <> Waiting \/ (st s i = Waiting /\ cond_of c i <> CErr /\ cond_of c i <> CFalse /\ check c (st s) (deps_of c i) VReady = VWait)) ->
     Step c s (Visit i) s
 | SVisitErr i : fatal s = false -> exited s = false -> i < length c -> st s i = Waiting -> cond_of c i = CErr ->
-    Step c s (Visit i) (mkState (upd (st s) i Error) true (gerr s) (log s) (pend s) false false)
+    Step c s (Visit i) (mkState (upd (st s) i Error) true (gerr s || negb (allow_of c i)) (log s) (pend s) false false)
 | SVisitSkip i : fatal s = false -> exited s = false -> i < length c -> st s i = Waiting -> cond_of c i = CFalse ->
     Step c s (Visit i) (mkState (upd (st s) i Skipped) (cancelled s) (gerr s) (log s) (pend s) false false)
 | SVisitFatal i : fatal s = false -> exited s = false -> i < length c -> st s i = Waiting ->
